@@ -15,6 +15,8 @@ import (
 	"sync"
 	"time"
 
+	"go/types"
+
 	"golang.org/x/tools/go/ssa"
 )
 
@@ -105,6 +107,7 @@ func cmdCheck(args []string, repo, spec string, timeout int, verbose bool) int {
 	c := &Checker{W: w, Prop: ps, Tier: tier, Seed: seed, Timeout: timeout, Dir: dir, Verif: verif, EncOf: map[*Obl]*enc{}}
 	c.selectAndEncode()
 	c.writersObligations()
+	c.frameObligations()
 	if ps.Extra != nil {
 		ps.Extra(c)
 	}
@@ -208,7 +211,7 @@ func (c *Checker) addFunc(f *ssa.Function, filter func(*Obl) bool) *enc {
 		if filter != nil && !filter(o) {
 			continue
 		}
-		if c.Prop.Classes != nil && !c.Prop.Classes.MatchString(o.Class+":"+o.Label) && o.Class != "reach" && o.Class != "contract" && o.Class != "subset" {
+		if filter == nil && c.Prop.Classes != nil && !c.Prop.Classes.MatchString(o.Class+":"+o.Label) && o.Class != "reach" && o.Class != "contract" && o.Class != "subset" {
 			continue
 		}
 		o.Props[c.Prop.ID] = true
@@ -467,3 +470,202 @@ func (c *Checker) report(t0 time.Time, verbose bool) int {
 }
 
 var _ = strings.Join
+
+// frameObligations: every declared frame ("assigns") the property's functions rely on — their own
+// and those of the contracts applied at their call sites, interface contracts included — is
+// compared with the inferred transitive write set of the function bodies it speaks for
+// (whole-program mod-ref over the SSA; writes to objects allocated by the activation do not
+// count). A frame marked trusted / trusted-frame is listed as an assumption instead.
+func (c *Checker) frameObligations() {
+	w := c.W
+	w.immutableArr("")
+	type job struct {
+		fc  *FuncContract
+		key string
+	}
+	// postconditions of interface contracts relied on at invoke sites: every implementer proves them
+	encoded := map[*ssa.Function]bool{}
+	for _, e := range c.Encs {
+		encoded[e.f] = true
+	}
+	for k := 0; k < len(c.Encs); k++ {
+		e := c.Encs[k]
+		var ks []string
+		for fc, key := range e.usedFCs {
+			if len(fc.Ensures) > 0 && !fc.Trusted {
+				ks = append(ks, key)
+			}
+		}
+		sort.Strings(ks)
+		for _, key := range ks {
+			it, m := w.ifaceMethod(key)
+			if m == nil {
+				continue
+			}
+			for _, f := range w.Mod.implMethods(it, m) {
+				if encoded[f] {
+					continue
+				}
+				encoded[f] = true
+				c.addFunc(f, func(o *Obl) bool {
+					return o.Class == "contract" || o.Class == "subset" || (o.Class == "post" && strings.HasPrefix(o.Label, "iface:"))
+				})
+			}
+		}
+	}
+	// preconditions relied on by the functions under check: every call site in the repository proves them
+	nFull := len(c.Encs)
+	for k := 0; k < nFull; k++ {
+		e := c.Encs[k]
+		if e.order == nil {
+			continue
+		}
+		need := map[string]bool{}
+		if e.fc != nil && len(e.fc.Requires) > 0 && !e.fc.Trusted {
+			need[funcKey(e.f)] = true
+		}
+		for _, ii := range e.ifaceContracts() {
+			if len(ii.fc.Requires) > 0 {
+				need[funcKey(e.f)] = true
+				need[ii.key] = true
+			}
+		}
+		if len(need) == 0 {
+			continue
+		}
+		var callers []*ssa.Function
+		for _, g := range w.FuncList {
+			if w.Mod.Callees[g][e.f] && !encoded[g] {
+				callers = append(callers, g)
+			}
+		}
+		for _, g := range callers {
+			encoded[g] = true
+			c.addFunc(g, func(o *Obl) bool {
+				return o.Class == "contract" || o.Class == "subset" || (o.Class == "pre" && need[o.Callee])
+			})
+		}
+	}
+	seen := map[*FuncContract]bool{}
+	var jobs []job
+	for _, e := range c.Encs {
+		if e.fc != nil && !seen[e.fc] {
+			seen[e.fc] = true
+			jobs = append(jobs, job{e.fc, funcKey(e.f)})
+		}
+		var ks []*FuncContract
+		for fc := range e.usedFCs {
+			ks = append(ks, fc)
+		}
+		sort.Slice(ks, func(i, j int) bool { return e.usedFCs[ks[i]] < e.usedFCs[ks[j]] })
+		for _, fc := range ks {
+			if !seen[fc] {
+				seen[fc] = true
+				jobs = append(jobs, job{fc, e.usedFCs[fc]})
+			}
+		}
+	}
+	for _, j := range jobs {
+		fc := j.fc
+		if !fc.HasAssigns || fc.Trusted || fc.TrustedFrame {
+			continue
+		}
+		var targets []*ssa.Function
+		if f := w.Funcs[j.key]; f != nil {
+			targets = []*ssa.Function{f}
+		} else if it, m := w.ifaceMethod(j.key); m != nil {
+			targets = w.Mod.implMethods(it, m)
+		}
+		for _, f := range targets {
+			if f.Blocks == nil {
+				continue
+			}
+			var bad []string
+			for a := range w.Mod.Trans[f] {
+				if assignsAllow(fc.Assigns, a) {
+					continue
+				}
+				// "Elems_T@pkg.S.f" in the frame: only the slices held in field S.f are meant
+				if fld := elemsVia(fc.Assigns, a); fld != "" {
+					okAll := true
+					for o, who := range w.Mod.elemsOrigins(f, a) {
+						if o == "" || o == "H_"+fld || strings.HasSuffix(o, "."+fld) {
+							okAll = false
+							bad = append(bad, fmt.Sprintf("%s (through %q in %s)", a, o, who))
+						}
+					}
+					if okAll {
+						e := c.structEnc(f)
+						e.assumptions["slices held in field "+fld+" share no backing array with slices of the same element type held in other fields (frame "+a+"@"+fld+")"] = true
+						continue
+					}
+					continue
+				}
+				bad = append(bad, a)
+			}
+			sort.Strings(bad)
+			e := c.structEnc(f)
+			note := fmt.Sprintf("declared frame of %s: assigns %s; inferred writes of %s outside it: %v", j.key, strings.Join(fc.Assigns, ", "), funcKey(f), bad)
+			c.addStruct(e, "frame", "assigns:"+j.key, f.Pos(), len(bad) == 0, note)
+		}
+	}
+}
+
+// assignsAllow: may a function with this frame write heap array arr (on a pre-existing object)?
+func assignsAllow(assigns []string, arr string) bool {
+	if len(assigns) > 0 && strings.HasPrefix(assigns[0], "* except ") {
+		exc := append([]string{strings.TrimPrefix(assigns[0], "* except ")}, assigns[1:]...)
+		for _, p := range exc {
+			if matchArr(strings.TrimSpace(p), arr) {
+				return false
+			}
+		}
+		return true
+	}
+	for _, a := range assigns {
+		if a == "*" || matchArr(a, arr) {
+			return true
+		}
+	}
+	return false
+}
+
+// elemsVia: the field of an "Elems_T@pkg.S.f" entry for array arr in the frame ("" if none).
+func elemsVia(assigns []string, arr string) string {
+	for i, a := range assigns {
+		a = strings.TrimSpace(a)
+		if i == 0 {
+			a = strings.TrimPrefix(a, "* except ")
+		}
+		if k := strings.Index(a, "@"); k > 0 && a[:k] == arr {
+			return a[k+1:]
+		}
+	}
+	return ""
+}
+
+// ifaceMethod resolves "pkg.Iface.Method".
+func (w *World) ifaceMethod(key string) (types.Type, *types.Func) {
+	parts := strings.Split(key, ".")
+	if len(parts) != 3 {
+		return nil, nil
+	}
+	p := w.TPkgs[parts[0]]
+	if p == nil {
+		return nil, nil
+	}
+	tn, ok := p.Scope().Lookup(parts[1]).(*types.TypeName)
+	if !ok {
+		return nil, nil
+	}
+	it, ok := tn.Type().Underlying().(*types.Interface)
+	if !ok {
+		return nil, nil
+	}
+	for i := 0; i < it.NumMethods(); i++ {
+		if it.Method(i).Name() == parts[2] {
+			return tn.Type(), it.Method(i)
+		}
+	}
+	return nil, nil
+}
